@@ -247,13 +247,20 @@ func scenarios(tier string) []scenario {
 			if st == "output_full" || st == "client_stalled" {
 				sb = b - 1 // many more threads and points in the flooded states
 			}
+			if tier == "thorough" && (st == "midstream" || st == "blocked") {
+				sb = 2 // three deviations do not complete within minutes in these states (measured); the flooded states run one deviation more than in quick
+			}
 			out = append(out, scenario{Event: ev, State: st, Bound: sb})
 		}
 	}
 	for _, st := range []string{"idle", "midstream"} {
-		out = append(out, scenario{Event: "write_err_client_wu", State: st, Bound: b}, scenario{Event: "write_err_server_fwd", State: st, Bound: b})
+		wb := b
+		if st == "midstream" {
+			wb = 2
+		}
+		out = append(out, scenario{Event: "write_err_client_wu", State: st, Bound: wb}, scenario{Event: "write_err_server_fwd", State: st, Bound: wb})
 	}
-	out = append(out, scenario{Event: "write_err_server_wu", State: "midstream", Bound: b}, scenario{Event: "write_err_client_fwd", State: "midstream", Bound: b})
+	out = append(out, scenario{Event: "write_err_server_wu", State: "midstream", Bound: 2}, scenario{Event: "write_err_client_fwd", State: "midstream", Bound: 2})
 	// the session ends before it is fully set up: in the middle of the client preface, or after the preface but
 	// before any SETTINGS frame
 	for _, st := range []string{"mid_preface", "pre_settings"} {
@@ -314,7 +321,7 @@ func main() {
 		out := &shardOut{Counters: map[string]int64{}}
 		per := 40 * time.Second
 		if tier == "thorough" {
-			per = 8 * time.Minute
+			per = 4 * time.Minute
 		}
 		for si, sc := range scen {
 			if si%n != i {
